@@ -137,6 +137,7 @@ type (
 	InvalidMonetaryLiteral    = interpreter.InvalidMonetaryLiteral
 	InvalidNumberLiteral      = interpreter.InvalidNumberLiteral
 	MetadataNotFound          = interpreter.MetadataNotFound
+	InvalidAccountName        = interpreter.InvalidAccountName
 	TypeError                 = interpreter.TypeError
 	UnboundVariableErr        = interpreter.UnboundVariableErr
 	BadPortionParsingErr      = interpreter.BadPortionParsingErr
